@@ -2,7 +2,9 @@
 package all
 
 import (
+	_ "verif/props/c01"
 	_ "verif/props/c02"
+	_ "verif/props/c04"
 	_ "verif/props/c08"
 	_ "verif/props/c09"
 )
